@@ -735,13 +735,27 @@ impl<'a> Machine<'a> {
                 self.bt_depth -= 1;
                 out
             }
-            Ex::Rep(e) | Ex::RepOnce(e) => {
-                let once = matches!(n.ex, Ex::RepOnce(_));
+            Ex::Rep(e) | Ex::RepOnce(e) | Ex::RepCount(e, _, _) => {
+                let (min, max): (usize, Option<usize>) = match &n.ex {
+                    Ex::RepOnce(_) => (1, None),
+                    Ex::RepCount(_, a, b) => (*a as usize, b.map(|x| x as usize)),
+                    _ => (0, None),
+                };
+                if let Some(m) = max {
+                    if min > m {
+                        return Err(Fail::No);
+                    }
+                }
                 let mut p = pos;
                 let mut s = stk.clone();
                 let mut out: Vec<(Vec<MNode>, MNode)> = vec![];
                 self.bt_depth += 1;
                 loop {
+                    if let Some(m) = max {
+                        if out.len() >= m {
+                            break;
+                        }
+                    }
                     let ops = self.stack_ops;
                     let (mut p1, mut s1, mut skipped) = (p, s.clone(), vec![]);
                     if !out.is_empty() {
@@ -763,7 +777,7 @@ impl<'a> Machine<'a> {
                     }
                     match self.eval(e, p1, &s1, at) {
                         Ok((p2, s2, node)) => {
-                            if p2 == p && *s2 == *s {
+                            if max.is_none() && p2 == p && *s2 == *s {
                                 // no progress: the real loop would never end
                                 self.nonprogress = true;
                                 out.push((skipped, node));
@@ -785,7 +799,7 @@ impl<'a> Machine<'a> {
                     }
                 }
                 self.bt_depth -= 1;
-                if once && out.is_empty() {
+                if out.len() < min {
                     return Err(Fail::No);
                 }
                 Ok((p, s, MNode::Rep(out)))
